@@ -141,7 +141,7 @@ pub fn large_strategy() -> impl Strategy<Value = Case> {
         prop_oneof![3 => 150usize..=700, 3 => 515usize..=560, 1 => 86usize..=149],
         prop::collection::vec(
             // missingness is a property of the record: heavy, light, or none at all (complete cohort)
-            (prop_oneof![2 => prop::collection::vec(gt_strategy(false, 20, 5), 700), 1 => prop::collection::vec(gt_strategy(false, 1, 0), 700), 2 => prop::collection::vec(gt_strategy(false, 0, 0), 700)], 1u64..=3000, any::<u8>()),
+            (prop_oneof![2 => prop::collection::vec(gt_strategy(false, 20, 5), 700), 1 => prop::collection::vec(gt_strategy(false, 1, 0), 700), 2 => prop::collection::vec(gt_strategy(false, 0, 0), 700)], 1u64..=3000, any::<u8>(), any::<u16>()),
             2..=6,
         ),
         any::<bool>(),
@@ -150,8 +150,31 @@ pub fn large_strategy() -> impl Strategy<Value = Case> {
         any::<u16>(),
     )
         .prop_map(|(n, recs, two_pops, td, container, split)| {
+            let tiny_targets = split % 3 == 0;
             let records: Vec<Record> = recs
                 .into_iter()
+                .map(|(mut gts, pos, force, rare)| {
+                    // rare-variant classes (half of the records): a singleton .. quintupleton, or a site
+                    // nearly fixed for ALT; the called genotypes keep their missingness pattern
+                    let class = rare % 6;
+                    if class < 3 {
+                        let k = 1 + (rare as usize / 6) % 5;
+                        let (common, other) = if class == 2 { (1u8, 0u8) } else { (0u8, 1u8) };
+                        let mut placed = 0;
+                        for (i, g) in gts.iter_mut().enumerate() {
+                            if !g.is_call() {
+                                continue;
+                            }
+                            let mut a = [common, common];
+                            if placed < k && (crate::engine::splitmix64(rare as u64 ^ (i as u64) << 16) % 9 == 0) {
+                                a[(i + placed) % 2] = other;
+                                placed += 1;
+                            }
+                            *g = crate::gen::callset::Gt::diploid(Some(a[0]), Some(a[1]), g.phased.first().copied().unwrap_or(false));
+                        }
+                    }
+                    (gts, pos, force)
+                })
                 .map(|(gts, pos, force)| Record {
                     contig: 0,
                     pos,
@@ -190,6 +213,15 @@ pub fn large_strategy() -> impl Strategy<Value = Case> {
                         if td.individuals {
                             m[j] -= m[j] % 2;
                         }
+                    }
+                }
+            }
+            // tiny targets (a third of the cases): 1..6 chromosomes out of hundreds
+            if tiny_targets {
+                for j in 0..m.len() {
+                    m[j] = (1 + (td.val[j] as usize) % 6).min(2 * map.pop_sizes()[j]);
+                    if td.individuals {
+                        m[j] = (m[j] + m[j] % 2).min(2 * map.pop_sizes()[j]);
                     }
                 }
             }
@@ -282,10 +314,90 @@ fn eval(ctx: &Ctx, case: &Case) -> Verdict {
         pass.add_label("target-full-size");
     }
     if large {
+        if case.m.iter().all(|m| *m <= 6) {
+            pass.add_label("tiny-targets(<=6-chromosomes)");
+        }
+        let rare = case.cs.records.iter().filter(|r| {
+            let alt: u64 = r.gts.iter().filter(|g| g.is_call()).map(|g| g.alleles.iter().flatten().sum::<u64>()).sum();
+            let called = 2 * r.gts.iter().filter(|g| g.is_call()).count() as u64;
+            called > 100 && (alt <= 5 || called - alt <= 5)
+        }).count();
+        if rare > 0 {
+            pass.add_label("has-rare-variant-record(<=5-minor-alleles)");
+        }
         let max_t = case.map.pop_sizes().iter().map(|n| 2 * n).max().unwrap_or(0);
         pass.add_label(if max_t >= 1030 { "cohort>=1030-chromosomes" } else if max_t > 170 { "cohort-171..1029-chromosomes" } else { "cohort<=170" });
     }
     Ok(pass)
+}
+
+/// Long streams over a mid-sized cohort: hundreds of records whose (called chromosomes, ALT count)
+/// pairs keep changing and recurring, so that anything remembered from earlier sites (tables,
+/// caches, scratch rows) is exercised far beyond a handful of records.
+pub fn long_strategy() -> impl Strategy<Value = Case> {
+    (
+        16usize..=34,
+        prop::collection::vec((any::<u8>(), any::<u16>(), any::<u8>()), 300..=1400),
+        any::<bool>(),
+        (1usize..=9, 1usize..=9),
+        any::<bool>(),
+        prop_oneof![Just(Container::Vcf), Just(Container::BcfRaw)],
+    )
+        .prop_map(|(n, recs, two_pops, (m0, m1), individuals, container)| {
+            let template = crate::props::c10::fresh_record(n);
+            let mut pos = 0u64;
+            let records: Vec<Record> = recs
+                .iter()
+                .map(|(missing, alt, rot)| {
+                    pos += 1 + (*rot as u64 % 7);
+                    let missing = if missing % 4 == 0 { 0 } else { (*missing as usize / 4) % (n + 1) };
+                    let called = n - missing;
+                    let a = if called == 0 { 0 } else { *alt as usize % (2 * called + 1) };
+                    let mut gts = Vec::with_capacity(n);
+                    for i in 0..n {
+                        let gt = if i < missing {
+                            crate::gen::callset::Gt::diploid(None, if i % 2 == 0 { None } else { Some(0) }, false)
+                        } else {
+                            let c = i - missing;
+                            let k = if 2 * (c + 1) <= a { 2 } else if 2 * c < a { 1 } else { 0 };
+                            match k {
+                                2 => crate::gen::callset::Gt::diploid(Some(1), Some(1), c % 2 == 0),
+                                1 => crate::gen::callset::Gt::diploid(Some((c % 2) as u8), Some(1 - (c % 2) as u8), false),
+                                _ => crate::gen::callset::Gt::diploid(Some(0), Some(0), c % 3 == 0),
+                            }
+                        };
+                        gts.push(gt);
+                    }
+                    gts.rotate_left(*rot as usize % n);
+                    Record { pos, gts, ..template.clone() }
+                })
+                .collect();
+            let cs = CallSet {
+                contigs: vec!["ctgLong9".into()],
+                samples: (0..n).map(|i| format!("L{i}")).collect(),
+                records,
+            };
+            let entries = (0..n).map(|i| (i, if two_pops { Some(i % 2) } else { None })).collect();
+            let map = MapSpec {
+                entries,
+                labels: if two_pops { vec!["even".into(), "odd".into()] } else { vec![] },
+                as_file: false,
+            };
+            let mut m: Vec<usize> = if two_pops { vec![m0, m1] } else { vec![m0] };
+            if individuals {
+                for x in m.iter_mut() {
+                    *x += *x % 2;
+                }
+            }
+            Case {
+                cs,
+                map,
+                container,
+                m,
+                individuals,
+                precision: Some(8),
+            }
+        })
 }
 
 #[derive(Clone, Debug, Serialize, Deserialize)]
@@ -374,9 +486,16 @@ pub fn check(ctx: &Ctx) -> Check {
         }),
         Box::new(RandomPart {
             name: "project-large-cohort",
-            rule: "cohorts of 86..700 samples (172..1400 chromosomes: the ln-gamma path beyond the 170! table and binomials beyond f64 range, with extra weight on 515..522 samples where only the denominator binomial overflows), 2..6 records with ~20% missing genotypes, one or two populations, targets as above, precision 10; tolerance 0.5e-10 + 1e-8(1+R)",
-            cases: ctx.tier.pick(160, 4000),
+            rule: "cohorts of 86..700 samples (172..1400 chromosomes: the ln-gamma path beyond the 170! table and binomials beyond f64 range, with extra weight on 515..522 samples where only the denominator binomial overflows), 2..6 records with ~20% missing genotypes (half of them rare variants: 1..5 minor alleles, or nearly fixed for ALT), one or two populations, targets as above or (a third of the cases) tiny targets of 1..6 chromosomes, precision 10; tolerance 0.5e-10 + 1e-8(1+R)",
+            cases: ctx.tier.pick(400, 6000),
             strategy: Box::new(|| large_strategy().boxed()),
+            eval: Box::new(eval),
+        }),
+        Box::new(RandomPart {
+            name: "project-long-streams",
+            rule: "16..34 samples in one or two populations, 300..1400 records each with its own number of missing genotypes (0..n) and ALT count (0..2*called), targets of 1..10 chromosomes: hundreds of distinct (called, ALT) pairs per axis that keep recurring; every printed cell against the reference model (precision 8, tolerance 0.5e-8 + 1e-9(1+R))",
+            cases: ctx.tier.pick(200, 3000),
+            strategy: Box::new(|| long_strategy().boxed()),
             eval: Box::new(eval),
         }),
         Box::new(RandomPart {
